@@ -14,6 +14,11 @@ from rules.driver import loop_trip
 
 UNIT = 'jit_compiler_rv64.cpp'
 
+
+def jitfacts_instr_param(f):
+    import jitfacts
+    return jitfacts.instr_param(f)
+
 ABI = dict(zero=0, ra=1, sp=2, gp=3, tp=4, t0=5, t1=6, t2=7, s0=8, fp=8, s1=9)
 ABI.update({'a%d' % i: 10 + i for i in range(8)})
 ABI.update({'s%d' % i: 16 + i for i in range(2, 12)})
@@ -86,6 +91,35 @@ def sx(v, bits):
     return v - (1 << bits) if v >> (bits - 1) else v
 
 
+def cbranch_roles(h):
+    """locals of h_CBRANCH by what they hold, not by what they are called"""
+    f = h.f
+    out = {}
+    for x in walk(f['body']):
+        if x['k'] != 'Decl':
+            continue
+        for d in x['d']:
+            if 'init' not in d:
+                continue
+            i = strip_all(d['init'])
+            while i['k'] == 'Cast':
+                i = strip_all(i['e'])
+            mems = [y for y in walk(d['init']) if y['k'] == 'Mem']
+            names = [show(y).split('.')[-1].split('>')[-1] for y in mems]
+            if 'registerUsage' in names:
+                out['target'] = d
+            elif 'instructionOffsets' in names:
+                out['targetPos'] = d
+            elif i['k'] == 'Bin' and i['op'] == '-' and 'codePos' in names:
+                out['offset'] = d
+            elif h.desc(d['init']) == 'dst' and i['k'] == 'Mem':
+                out['reg'] = d
+    for k in ('target', 'targetPos', 'offset'):
+        if k not in out:
+            raise AnalysisBroken('rv64 h_CBRANCH: local holding the %s not found' % k)
+    return out
+
+
 # ---------------------------------------------------------------------------------------------
 def rule_cbr(ctx, R, FI):
     F, hs = jit.handlers(ctx, 'rv64')
@@ -117,25 +151,19 @@ def rule_cbr(ctx, R, FI):
         R.check(mask.value() == cm << b and (cm << b) < (1 << 31), 'rv64 mask, shift %d' % b, loc(mask_call, f), expected=hex(cm << b), found=mask.hexpat())
     R.rule('CBR-TARGET', 'RV64 h_CBRANCH: the register added to and tested is instr.dst, the jump goes to instructionOffsets[registerUsage[instr.dst] + 1]; all 8 entries are marked afterwards; '
            'the tables are reset before every compilation and the offset of every instruction is recorded before its handler runs', min_instances=6)
-    d = local_decls(f)
-    with astq.renaming({h.ip: 'IN'}), astq.nocasts():
-        reg = showv(d['reg']['init']) if 'reg' in d and 'init' in d['reg'] else None
-        tgt = [x for x in d.values() if 'init' in x and 'registerUsage' in show(x['init'])]
-        tpos = [x for x in d.values() if 'init' in x and 'instructionOffsets' in show(x['init'])]
-        tgt_s = [showv(x['init']) for x in tgt]
-        tpos_s = [showv(x['init']) for x in tpos]
+    ro = cbranch_roles(h)
+    st_id = f['params'][0]['id'] if f['params'] else None
+    with astq.renaming({h.ip: 'IN', st_id: 'ST', ro['target']['id']: 'TARGET', ro['targetPos']['id']: 'TPOS'} | ({ro['reg']['id']: 'REG'} if ro.get('reg') else {})), astq.nocasts():
+        tgt_s = showv(ro['target']['init'])
+        tpos_s = showv(ro['targetPos']['init'])
+        off_s = showv(ro['offset']['init'])
         addargs = [showv(a) for a in add_call['a'][2:4]]
         andc = [c for c in calls(f['body']) if c.get('name') == 'rvi' and opc_of(c) == 'AND']
         and_s = [showv(a) for a in andc[0]['a'][1:]] if andc else None
-    regtxt = 'IN.dst'
-    ok_t = len(tgt) == 1 and tgt_s[0] in ('(state.registerUsage[reg] + 1)', '(state.registerUsage[IN.dst] + 1)') and (reg == regtxt or 'reg' not in tgt_s[0])
-    R.check(ok_t, 'rv64 target lookup', where, expected='target = registerUsage[instr.dst] + 1', found=(reg, tgt_s))
-    ok_p = len(tpos) == 1 and tgt and tpos_s[0] == 'state.instructionOffsets[%s]' % tgt[0]['name']
-    R.check(ok_p, 'rv64 target position', where, expected='instructionOffsets[target]', found=tpos_s)
-    off = d.get('offset')
-    with astq.nocasts():
-        off_s = showv(off['init']) if off and 'init' in off else None
-    R.check(tpos and off_s == '(%s - state.codePos)' % tpos[0]['name'], 'rv64 branch displacement', where, expected='targetPos - codePos (relative to the branch instruction itself)', found=off_s)
+    ok_t = tgt_s in ('(ST.registerUsage[REG] + 1)', '(ST.registerUsage[IN.dst] + 1)') and (not ro.get('reg') or h.desc(ro['reg']['init']) == 'dst')
+    R.check(ok_t, 'rv64 target lookup', where, expected='target = registerUsage[instr.dst] + 1', found=tgt_s)
+    R.check(tpos_s == 'ST.instructionOffsets[TARGET]', 'rv64 target position', where, expected='instructionOffsets[target]', found=tpos_s)
+    R.check(off_s == '(TPOS - ST.codePos)', 'rv64 branch displacement', where, expected='targetPos - codePos (relative to the branch instruction itself)', found=off_s)
     R.check(addargs == ['randomx::regR(IN.dst)', 'randomx::regR(IN.dst)'], 'rv64 addend register', loc(add_call, f), expected='x{dst} += imm', found=addargs)
     tmp = val(mask_call['a'][2])
     R.check(and_s is not None and val(andc[0]['a'][1]) == tmp and {val(andc[0]['a'][2]), and_s[2]} >= {tmp, 'randomx::regR(IN.dst)'} or (and_s is not None and set(and_s[1:]) == {showv(mask_call['a'][2]), 'randomx::regR(IN.dst)'}),
@@ -164,9 +192,7 @@ def rule_branch_forms(ctx, R):
     R.rule('RV-BRANCH-RANGE', 'RV64 h_CBRANCH chooses among c.beqz / beq / c.bnez+jal by the (negative) distance: each form is selected only for distances its signed offset field can represent (c.beqz 9 bit, beq 13 bit, jal 21 bit '
            'and the whole program area is smaller than the jal range)', min_instances=3)
     d = local_decls(f)
-    off = d.get('offset')
-    if off is None:
-        raise AnalysisBroken('rv64 h_CBRANCH: no local `offset`')
+    off = cbranch_roles(h)['offset']
     forms = 0
     for p in decoder.paths(f['body']):
         ops = []
@@ -211,7 +237,7 @@ def rule_branch_forms(ctx, R):
             if x['k'] == 'Decl':
                 for dd in x['d']:
                     if dd['id'] != offid and 'init' in dd and domains.type_info(dd.get('ty')) is not None and not any(c.get('name') in ('getImm32', 'getModCond') for c in calls(dd['init'])) and \
-                            'registerUsage' not in show(dd['init']) and 'instructionOffsets' not in show(dd['init']) and dd['name'] not in ('reg', 'target', 'shift', 'imm'):
+                            'registerUsage' not in show(dd['init']) and 'instructionOffsets' not in show(dd['init']):
                         w, sg = domains.type_info(dd['ty'])
                         ev.env[dd['id']] = ev.ev(dd['init']).resize(w, (domains.type_info(dd['init'].get('ty')) or (0, False))[1])
         return ev.ev(emit_arg)
@@ -292,7 +318,9 @@ def rule_branch_forms(ctx, R):
             found=[dict(kind=s_['kind'], rs1=s_['rs1'], rs2=s_['rs2'], offset=s_['off'], size=s_['size']) for s_ in skips] + ['codePos += %s' % adv])
     # jal scatter in emitJump
     ej = fn(F, 'emitJump')
-    pid = {p['name']: p['id'] for p in ej['params']}
+    if len(ej['params']) != 4:
+        raise AnalysisBroken('rv64 emitJump: expected (buf, dst, codePos, targetPos)')
+    pid = {'dst': ej['params'][1]['id'], 'codePos': ej['params'][2]['id'], 'targetPos': ej['params'][3]['id']}
     em = [c for c in calls(ej['body']) if c.get('name') == 'emitAt']
     if len(em) != 1:
         raise AnalysisBroken('rv64 emitJump: expected one emitAt')
@@ -328,6 +356,23 @@ def rule_imm32(ctx, R):
     R.rule('RV-IMM32', 'RV64 emitImm32 materialises a sign-extended 32-bit constant: whenever the upper part was loaded with lui / c.lui the low 12 bits are added with addiw (addi would not wrap at 32 bits: lui 0x80000 ; addi -1 gives '
            '0xffffffff7fffffff), c.lui is used only for a non-zero 6-bit signed upper part, and the single-instruction form is used only when the upper part is zero', min_instances=4)
     d = local_decls(f)
+    # roles, not names: `limm` is the local that supplies the 12-bit immediate of addi / addiw, `uimm` the one shifted into the lui word
+    role = {}
+    for o_, c_ in emitted_ops(f['body']):
+        inner = [cc for cc in calls(c_) if cc.get('name') == 'rvi']
+        if o_ in ('ADDIW', 'ADDI') and inner:
+            for y in walk(inner[0]['a'][-1]):
+                if y['k'] == 'Ref' and y.get('id') in [dd['id'] for dd in d.values()]:
+                    role[y['id']] = 'limm'
+        if o_ == 'LUI':
+            for y in walk(c_['a'][-1]):
+                if y['k'] == 'Bin' and y['op'] == '<<' and val(y['r']) == 12:
+                    for z in walk(y['l']):
+                        if z['k'] == 'Ref' and z.get('id') in [dd['id'] for dd in d.values()]:
+                            role[z['id']] = 'uimm'
+    if sorted(role.values()) != ['limm', 'uimm']:
+        raise AnalysisBroken('rv64 emitImm32: cannot identify the low / high part locals (%s)' % sorted(role.values()))
+    by_role = {v_: k_ for k_, v_ in role.items()}
     n = 0
     for p in decoder.paths(f['body']):
         ops = []
@@ -337,7 +382,7 @@ def rule_imm32(ctx, R):
             ops += [(o, c) for o, c in emitted_ops(e)]
         names = [o for o, _ in ops]
         conds = []
-        with astq.nocasts():
+        with astq.renaming(role), astq.nocasts():
             for c, t in p.conds:
                 conds.append((showv(c), t))
         n += 1
@@ -359,10 +404,9 @@ def rule_imm32(ctx, R):
     if n < 4:
         raise AnalysisBroken('rv64 emitImm32: only %d paths' % n)
     # the split itself: limm is the sign-extended low 12 bits, uimm compensates for a negative limm
-    pid = {p['name']: p['id'] for p in f['params']}
-    lim, uim = d.get('limm'), d.get('uimm')
-    if lim is None or uim is None:
-        raise AnalysisBroken('rv64 emitImm32: locals limm/uimm not found')
+    pid = {'imm': f['params'][1]['id']}
+    byid = {dd['id']: dd for dd in d.values()}
+    lim, uim = byid.get(by_role['limm']), byid.get(by_role['uimm'])
     R.rule('RV-IMM32-SPLIT', 'emitImm32 split: limm = sign-extended low 12 bits of imm, uimm = (imm - limm) >> 12; decided by known-bits evaluation for every value of the low 12 bits x an all-zeros / all-ones / alternating upper part', min_instances=4096)
     for low in range(4096):
         for up in (0, 0xfffff, 0x55555, 0x80000, 0x7ffff):
@@ -410,9 +454,17 @@ def rule_rcppool(ctx, R, FI):
     # load displacement expression in h_IMUL_RCP: local `offset`
     hd = local_decls(h)
     lds = [c for op, c in emitted_ops(h['body']) if op == 'LD']
-    if len(lds) != 1 or 'offset' not in hd:
-        raise AnalysisBroken('rv64 h_IMUL_RCP: expected one ld with a local offset')
+    if len(lds) != 1:
+        raise AnalysisBroken('rv64 h_IMUL_RCP: expected one ld')
     ld_rvi = [c for c in calls(lds[0]) if c.get('name') == 'rvi'][0]
+    # the displacement local is the one used as the immediate of the ld
+    disp_ref = strip_all(ld_rvi['a'][-1])
+    while disp_ref['k'] == 'Cast':
+        disp_ref = strip_all(disp_ref['e'])
+    disp_decl = [dd for dd in hd.values() if disp_ref['k'] == 'Ref' and dd['id'] == disp_ref.get('id')]
+    if len(disp_decl) != 1 or 'init' not in disp_decl[0]:
+        raise AnalysisBroken('rv64 h_IMUL_RCP: displacement of the literal load is not a local with an initialiser')
+    hd = dict(hd, offset=disp_decl[0])
     base_reg = val(ld_rvi['a'][2])
     R.check(base_reg == F.const('randomx::LiteralPoolReg'), 'rv64 IMUL_RCP literal load base register', loc(lds[0], h), expected='x%s (literal pool pointer)' % F.const('randomx::LiteralPoolReg'), found=base_reg)
     # prologue: lla x3, literal_pool -> x3 = buffer + LiteralPoolOffset requires the pool label to sit at LiteralPoolOffset in the template copy
@@ -467,9 +519,9 @@ def rule_rcppool(ctx, R, FI):
     cap = refused_from if refused_from is not None else 0
     R.check(cap >= pmax, 'rv64 literal pool capacity', where, expected='>= RANDOMX_PROGRAM_MAX_SIZE = %d' % pmax, found=cap)
     # the displacement local in h_IMUL_RCP has the assumed form
-    with astq.nocasts():
+    with astq.renaming({h['params'][0]['id']: 'ST'}), astq.nocasts():
         offs = showv(hd['offset']['init'])
-    R.check(offs == '(%d + (state.rcpCount * 8))' % rlo, 'rv64 IMUL_RCP load displacement', loc(hd['offset'], h), expected='RcpLiteralsOffset + rcpCount * 8', found=offs)
+    R.check(offs == '(%d + (ST.rcpCount * 8))' % rlo, 'rv64 IMUL_RCP load displacement', loc(hd['offset'], h), expected='RcpLiteralsOffset + rcpCount * 8', found=offs)
     # register-resident literals are loaded by the template from the same slots
     regs = {}
     for off_, mn, ops_, raw in program_insns(o):
@@ -666,9 +718,15 @@ def rule_jitmask(ctx, R, FI):
     R.check(len(got) == 3, 'rv64 genAddressRegDst has three arms', '%s:%d' % (f['file'], f['line']), expected=3, found=len(got))
     f = fn(F, 'genAddressRegImm')
     d = local_decls(f)
-    with astq.nocasts():
-        s = showv(d['imm']['init']) if 'imm' in d else None
-    R.check(s == '(randomx::unsigned32ToSigned2sCompl(isn.getImm32()) & %d)' % mk['L3'], 'rv64 genAddressRegImm', '%s:%d' % (f['file'], f['line']), expected='imm32 & ScratchpadL3Mask', found=s)
+    e0 = [c for c in calls(f['body']) if c.get('name') == 'emitImm32']
+    iref = strip_all(e0[0]['a'][1]) if e0 else None
+    while iref is not None and iref['k'] == 'Cast':
+        iref = strip_all(iref['e'])
+    idecl = [dd for dd in d.values() if iref is not None and iref['k'] == 'Ref' and dd['id'] == iref.get('id')]
+    ipar = jitfacts_instr_param(f)
+    with astq.renaming({ipar: 'IN'} if ipar else {}), astq.nocasts():
+        s = showv(idecl[0]['init']) if idecl and 'init' in idecl[0] else (showv(e0[0]['a'][1]) if e0 else None)
+    R.check(s == '(randomx::unsigned32ToSigned2sCompl(IN.getImm32()) & %d)' % mk['L3'], 'rv64 genAddressRegImm', '%s:%d' % (f['file'], f['line']), expected='imm32 & ScratchpadL3Mask', found=s)
     e = [c for c in calls(f['body']) if c.get('name') == 'emitImm32']
     R.check(len(e) == 1 and val(e[0]['a'][3]) == F.const('randomx::SpadReg'), 'rv64 genAddressRegImm adds the scratchpad base', '%s:%d' % (f['file'], f['line']), expected='x9 = x5 + imm', found=[show(a) for a in e[0]['a'][2:4]] if e else None)
     # handlers use the helpers as the decoder uses the levels: loads through loadFromScratchpad (src != dst ? genAddressReg : genAddressRegImm), ISTORE through genAddressRegDst
